@@ -64,7 +64,29 @@ impl Ctx {
                 assert!(*n == node && *i as usize <= pos.len());
                 s.push_str(&format!(" {}", p));
             }
-            self.out.op(s, "ok".into());
+            self.out.op(s, "ok conflicts=0".into());
+        }
+    }
+
+    /// `KP` line: the real ring positions of the keys (hook H2); the model computes its own
+    /// (SipHash-1-3 of the key's bytes and 0xff) and counts the differences
+    fn op_key_positions(&mut self, keys: &[String]) {
+        let mut l = format!("KP {}", keys.len());
+        for k in keys {
+            l.push_str(&format!(" {} {}", crate::enc::hex(k.as_bytes()), HashRing::verif_key_position(k)));
+        }
+        self.out.op(l, "ok conflicts=0".into());
+    }
+
+    /// `SIP` lines: the real `DefaultHasher` on raw byte strings (every length 0..=24, then random)
+    fn op_sip(&mut self, rng: &mut Rng, n: usize) {
+        use std::hash::Hasher;
+        for i in 0..n {
+            let len = if i <= 24 { i } else { rng.range(25, 200) as usize };
+            let bytes: Vec<u8> = (0..len).map(|_| match rng.below(4) { 0 => 0, 1 => 255, _ => rng.below(256) as u8 }).collect();
+            let mut h = std::collections::hash_map::DefaultHasher::new();
+            h.write(&bytes);
+            self.out.op(format!("SIP {}", crate::enc::hex(&bytes)), h.finish().to_string());
         }
     }
 
@@ -404,6 +426,7 @@ fn scenario(ctx: &mut Ctx, rng: &mut Rng, thorough: bool, idx: u64) {
     } as usize;
     let nkeys = rng.range(12, 28) as usize;
     let keys: Vec<String> = (0..nkeys).map(|_| rand_key(rng)).collect();
+    ctx.op_key_positions(&keys);
     ctx.out.count(&format!("nodes:{}", k));
     ctx.out.count(&format!("rf:{}", rf));
     ctx.out.count(match vnodes { 0 => "vnodes:0", 1 => "vnodes:1", 2..=8 => "vnodes:2-8", 9..=32 => "vnodes:9-32", 33..=100 => "vnodes:33-100", _ => "vnodes:101-200" });
@@ -607,6 +630,7 @@ fn witness_from_config(ctx: &mut Ctx, rng: &mut Rng) {
     let seq = vec![1u64, 2, 3];
     let r = ctx.op_new(&seq, 50, 3);
     let keys: Vec<String> = vec!["k".into(), "user:1".into(), "".into()];
+    ctx.op_key_positions(&keys);
     ctx.op_replicas(&r, &keys, None);
     for me in 1..=3u64 {
         let spec = RouterSpec { kind: "cfg", me, selective: true, peer_ids: vec![], npeers: 2 };
@@ -620,6 +644,7 @@ pub fn run(a: &Args) {
     let thorough = a.tier == "thorough";
     // the witness uses its own stream so that the corpus case is the same for every seed
     let mut wr = Rng::new(7);
+    ctx.op_sip(&mut wr, 40);
     witness_from_config(&mut ctx, &mut wr);
     for i in 0..a.n {
         scenario(&mut ctx, &mut rng, thorough, i);
